@@ -451,3 +451,55 @@ Theorem C01_default_oer_roundtrip_example :
   dfl_oer wit7_dr wit7_da wit7_t (EVSeq [VInt 200] [VSome (VInt 5); VSome (VBool true); VNone]) = Some [0; 200].
 Proof. exact dfl_oer_roundtrip_example. Qed.
 Print Assumptions C01_default_oer_roundtrip_example.
+
+(* -- the width of an OER-visible INTEGER constraint with a negative lower bound
+      (Rt/WidthRt.v; tie: lib/c01_width.py, the lb x ub width-boundary modules) -- *)
+From A1 Require Import Rt.WidthRt.
+
+(* the width [oer_int_ct] emits is the least of 1, 2, 4, 8 octets whose two's-complement
+   range holds BOTH bounds (0 = length-prefixed when none does) *)
+Theorem C01_oer_width_signed_least : forall l h w, l < 0 ->
+  fst (oer_int_ct (ICon (Some l) (Some h) false)) = w ->
+  In w [0; 1; 2; 4; 8] /\
+  (w = 0 -> fits_s 8 l h = false) /\
+  (w <> 0 -> fits_s w l h = true) /\
+  (forall w', In w' [1; 2; 4; 8] -> w' < w -> fits_s w' l h = false).
+Proof. exact oer_width_signed_least. Qed.
+Print Assumptions C01_oer_width_signed_least.
+
+(* hence every value between the bounds, the bounds included, fits that width *)
+Theorem C01_oer_width_signed_holds : forall l h z w, l < 0 -> l <= z <= h ->
+  fst (oer_int_ct (ICon (Some l) (Some h) false)) = w -> w <> 0 ->
+  - 2 ^ (8 * w - 1) <= z <= 2 ^ (8 * w - 1) - 1.
+Proof. exact oer_width_signed_holds. Qed.
+Print Assumptions C01_oer_width_signed_holds.
+
+(* the decision of seeded/C01-9 (upper test without "- 1") is the same function away
+   from the upper bounds 2^7, 2^15, 2^31 ... *)
+Theorem C01_oer_width_shift_agrees : forall l h, l < 0 ->
+  h <> 128 -> h <> 32768 -> h <> 2147483648 ->
+  oer_int_ct_shift l h = oer_int_ct (ICon (Some l) (Some h) false).
+Proof. exact oer_width_shift_agrees. Qed.
+Print Assumptions C01_oer_width_shift_agrees.
+
+(* ... one size too small exactly there, for every lower bound of that size ... *)
+Theorem C01_oer_width_shift_differs : forall l,
+  (-128 <= l < 0 -> oer_int_ct_shift l 128 = (1, false) /\
+                    oer_int_ct (ICon (Some l) (Some 128) false) = (2, false)) /\
+  (-32768 <= l < 0 -> oer_int_ct_shift l 32768 = (2, false) /\
+                      oer_int_ct (ICon (Some l) (Some 32768) false) = (4, false)) /\
+  (-2147483648 <= l < 0 -> oer_int_ct_shift l 2147483648 = (4, false) /\
+                           oer_int_ct (ICon (Some l) (Some 2147483648) false) = (8, false)).
+Proof. exact oer_width_shift_differs. Qed.
+Print Assumptions C01_oer_width_shift_differs.
+
+(* ... and then the encoder refuses the upper bound itself, which the real width encodes *)
+Theorem C01_oer_width_shift_refuted : forall l,
+  (-128 <= l < 0 ->
+     oer_int_with (oer_int_ct_shift l 128) 128 = None /\
+     oer_int (ICon (Some l) (Some 128) false) 128 = Some [0; 128]) /\
+  (-32768 <= l < 0 ->
+     oer_int_with (oer_int_ct_shift l 32768) 32768 = None /\
+     oer_int (ICon (Some l) (Some 32768) false) 32768 = Some [0; 0; 128; 0]).
+Proof. exact oer_width_shift_refuted. Qed.
+Print Assumptions C01_oer_width_shift_refuted.
